@@ -1,14 +1,22 @@
 //! Simulated worker pool standing in for `rayon` (see /verif/DESIGN.md §2.3).
 //!
-//! Only the surface mahf uses is provided:
-//! `slice.par_iter_mut().for_each(..)` and
-//! `iter.par_bridge().map(..).collect::<Result<(), E>>()`.
+//! mahf itself uses `slice.par_iter_mut().for_each(..)` and
+//! `iter.par_bridge().map(..).collect::<Result<(), E>>()`. The shim covers a wider part of
+//! rayon's surface (indexed sources and adaptors, the common consumers, `join`, `scope`,
+//! `ThreadPoolBuilder`), so that a change to mahf that uses more of rayon still builds against
+//! the simulator instead of turning every check into a build error.
 //!
 //! Inside a simulated run (`sim::configure(workers >= 1)` on the OS thread that drives the
 //! shuttle `Runner`) every parallel call runs its items on `workers` scoped **shuttle** threads
 //! that pull from a shared queue; which worker runs when is decided by shuttle's seeded
-//! scheduler, the hand-out order of slice items by `shuttle::rand` (part of the schedule).
+//! scheduler, the hand-out order of indexed items by `shuttle::rand` (part of the schedule).
 //! Outside a simulated run (`workers == 0`, the default) items are processed inline, in order.
+//!
+//! Faithfulness: results that rayon delivers in index order (`collect` into a `Vec` from an
+//! indexed source, `reduce`/`sum`/`fold` operand order) are delivered in index order here too;
+//! what rayon leaves to its scheduler (which worker runs which item when, how a reduction is
+//! split into sub-ranges, the order in which `par_bridge` items complete) is decided by the
+//! schedule's PRNG.
 
 pub mod sim {
     use std::cell::Cell;
@@ -49,30 +57,38 @@ pub mod sim {
     }
 }
 
+/// A scheduling point of the simulated pool (no-op outside a simulated run).
+fn preempt() {
+    if sim::workers() > 0 {
+        shuttle::thread::sleep(std::time::Duration::from_millis(0));
+    }
+}
+
 pub mod iter {
     use super::sim;
     use shuttle::rand::Rng;
     use std::sync::atomic::{AtomicBool, Ordering};
+    use std::sync::Mutex as StdMutex;
 
-    /// Pull-based source of items shared by the simulated workers.
+    /// Pull-based source of `(index, item)` pairs shared by the simulated workers.
     pub trait Source: Send {
         type Item: Send;
-        fn next_item(&mut self) -> Option<Self::Item>;
+        fn next_item(&mut self) -> Option<(usize, Self::Item)>;
     }
 
     /// Run `consumer` over all items of `source`. `consumer` returns `false` to ask the pool to
-    /// stop handing out further items (used for `Result` short-circuiting).
-    fn run_pool<S, C>(mut source: S, consumer: C)
+    /// stop handing out further items (used for short-circuiting consumers).
+    pub(crate) fn run_pool<S, C>(mut source: S, consumer: C)
     where
         S: Source,
-        C: Fn(S::Item) -> bool + Sync,
+        C: Fn(usize, S::Item) -> bool + Sync,
     {
         let k = sim::workers();
         let mut n = 0u64;
         if k == 0 {
-            while let Some(item) = source.next_item() {
+            while let Some((i, item)) = source.next_item() {
                 n += 1;
-                if !consumer(item) {
+                if !consumer(i, item) {
                     break;
                 }
             }
@@ -96,11 +112,11 @@ pub mod iter {
                         it
                     };
                     match item {
-                        Some(item) => {
+                        Some((i, item)) => {
                             // a worker can be preempted between taking an item and starting on
                             // it, and again before it comes back for the next one
                             shuttle::thread::sleep(std::time::Duration::from_millis(0));
-                            if !consumer(item) {
+                            if !consumer(i, item) {
                                 stop.store(true, Ordering::SeqCst);
                             }
                             shuttle::thread::sleep(std::time::Duration::from_millis(0));
@@ -114,22 +130,102 @@ pub mod iter {
         sim::note_call(n);
     }
 
+    /// Contiguous chunk boundaries for a reduction over `n` operands: where rayon splits the
+    /// index range is up to its scheduler, so inside a simulated run the schedule's PRNG decides.
+    fn split_points(n: usize) -> Vec<usize> {
+        let mut cuts = vec![0, n];
+        if sim::workers() > 0 && n > 1 {
+            let mut rng = shuttle::rand::thread_rng();
+            let k = rng.gen_range(0..sim::workers().min(n));
+            for _ in 0..k {
+                cuts.push(rng.gen_range(1..n));
+            }
+        }
+        cuts.sort_unstable();
+        cuts.dedup();
+        cuts
+    }
+
     pub trait ParallelIterator: Sized + Send {
         type Item: Send;
 
+        /// Calls `consumer(index, item)` for every item on the (simulated) pool; the index is the
+        /// item's position in the source (arrival order for bridged iterators).
         #[doc(hidden)]
         fn drive<C>(self, consumer: C)
         where
-            C: Fn(Self::Item) -> bool + Sync;
+            C: Fn(usize, Self::Item) -> bool + Sync;
+
+        /// All items in index order, each computed on the pool.
+        #[doc(hidden)]
+        fn run_to_vec(self) -> Vec<Self::Item> {
+            let out: StdMutex<Vec<(usize, Self::Item)>> = StdMutex::new(Vec::new());
+            self.drive(|i, x| {
+                out.lock().unwrap().push((i, x));
+                true
+            });
+            let mut v = out.into_inner().unwrap();
+            v.sort_by_key(|(i, _)| *i);
+            v.into_iter().map(|(_, x)| x).collect()
+        }
 
         fn for_each<F>(self, f: F)
         where
             F: Fn(Self::Item) + Sync + Send,
         {
-            self.drive(|x| {
+            self.drive(|_, x| {
                 f(x);
                 true
             })
+        }
+
+        /// Every item sees its own clone of `init` (rayon clones once per split).
+        fn for_each_with<T, F>(self, init: T, f: F)
+        where
+            T: Send + Clone + Sync,
+            F: Fn(&mut T, Self::Item) + Sync + Send,
+        {
+            self.drive(|_, x| {
+                let mut t = init.clone();
+                f(&mut t, x);
+                true
+            })
+        }
+
+        fn for_each_init<T, INIT, F>(self, init: INIT, f: F)
+        where
+            INIT: Fn() -> T + Sync + Send,
+            F: Fn(&mut T, Self::Item) + Sync + Send,
+        {
+            self.drive(|_, x| {
+                let mut t = init();
+                f(&mut t, x);
+                true
+            })
+        }
+
+        /// Stops handing out work after the first `Err` and returns one of the errors that
+        /// occurred (the first in completion order).
+        fn try_for_each<F, E>(self, f: F) -> Result<(), E>
+        where
+            F: Fn(Self::Item) -> Result<(), E> + Sync + Send,
+            E: Send,
+        {
+            let first: StdMutex<Option<E>> = StdMutex::new(None);
+            self.drive(|_, x| match f(x) {
+                Ok(()) => true,
+                Err(e) => {
+                    let mut g = first.lock().unwrap();
+                    if g.is_none() {
+                        *g = Some(e);
+                    }
+                    false
+                }
+            });
+            match first.into_inner().unwrap() {
+                Some(e) => Err(e),
+                None => Ok(()),
+            }
         }
 
         fn map<R, F>(self, f: F) -> Map<Self, F>
@@ -140,11 +236,261 @@ pub mod iter {
             Map { base: self, f }
         }
 
+        fn map_with<T, R, F>(self, init: T, f: F) -> MapWith<Self, T, F>
+        where
+            T: Send + Clone + Sync,
+            R: Send,
+            F: Fn(&mut T, Self::Item) -> R + Sync + Send,
+        {
+            MapWith { base: self, init, f }
+        }
+
+        fn filter<F>(self, f: F) -> Filter<Self, F>
+        where
+            F: Fn(&Self::Item) -> bool + Sync + Send,
+        {
+            Filter { base: self, f }
+        }
+
+        fn filter_map<R, F>(self, f: F) -> FilterMap<Self, F>
+        where
+            R: Send,
+            F: Fn(Self::Item) -> Option<R> + Sync + Send,
+        {
+            FilterMap { base: self, f }
+        }
+
+        fn inspect<F>(self, f: F) -> Map<Self, Box<dyn Fn(Self::Item) -> Self::Item + Sync + Send>>
+        where
+            F: Fn(&Self::Item) + Sync + Send + 'static,
+            Self::Item: 'static,
+        {
+            Map {
+                base: self,
+                f: Box::new(move |x| {
+                    f(&x);
+                    x
+                }),
+            }
+        }
+
+        fn cloned<'a, T>(self) -> Map<Self, fn(&'a T) -> T>
+        where
+            T: 'a + Clone + Send + Sync,
+            Self: ParallelIterator<Item = &'a T>,
+        {
+            Map { base: self, f: |x: &'a T| x.clone() }
+        }
+
+        fn copied<'a, T>(self) -> Map<Self, fn(&'a T) -> T>
+        where
+            T: 'a + Copy + Send + Sync,
+            Self: ParallelIterator<Item = &'a T>,
+        {
+            Map { base: self, f: |x: &'a T| *x }
+        }
+
         fn collect<C>(self) -> C
         where
             C: FromParallelIterator<Self::Item>,
         {
             C::from_par_iter(self)
+        }
+
+        fn count(self) -> usize {
+            self.run_to_vec().len()
+        }
+
+        /// Operands in index order; how the range is split into sub-ranges (each folded from
+        /// `identity()`) is decided by the schedule.
+        fn reduce<OP, ID>(self, identity: ID, op: OP) -> Self::Item
+        where
+            OP: Fn(Self::Item, Self::Item) -> Self::Item + Sync + Send,
+            ID: Fn() -> Self::Item + Sync + Send,
+        {
+            let items = self.run_to_vec();
+            let cuts = split_points(items.len());
+            let mut it = items.into_iter();
+            let mut total = identity();
+            for w in cuts.windows(2) {
+                let mut acc = identity();
+                for _ in w[0]..w[1] {
+                    acc = op(acc, it.next().expect("item"));
+                }
+                total = op(total, acc);
+            }
+            total
+        }
+
+        fn reduce_with<OP>(self, op: OP) -> Option<Self::Item>
+        where
+            OP: Fn(Self::Item, Self::Item) -> Self::Item + Sync + Send,
+        {
+            let items = self.run_to_vec();
+            let cuts = split_points(items.len());
+            let mut it = items.into_iter();
+            let mut total: Option<Self::Item> = None;
+            for w in cuts.windows(2) {
+                let mut acc: Option<Self::Item> = None;
+                for _ in w[0]..w[1] {
+                    let x = it.next().expect("item");
+                    acc = Some(match acc {
+                        None => x,
+                        Some(a) => op(a, x),
+                    });
+                }
+                total = match (total, acc) {
+                    (None, a) => a,
+                    (t, None) => t,
+                    (Some(t), Some(a)) => Some(op(t, a)),
+                };
+            }
+            total
+        }
+
+        /// One accumulator per sub-range (split by the schedule), in index order.
+        fn fold<T, ID, F>(self, identity: ID, fold_op: F) -> Ready<T>
+        where
+            T: Send,
+            ID: Fn() -> T + Sync + Send,
+            F: Fn(T, Self::Item) -> T + Sync + Send,
+        {
+            let items = self.run_to_vec();
+            let cuts = split_points(items.len());
+            let mut it = items.into_iter();
+            let mut out = Vec::new();
+            for w in cuts.windows(2) {
+                let mut acc = identity();
+                for _ in w[0]..w[1] {
+                    acc = fold_op(acc, it.next().expect("item"));
+                }
+                out.push(acc);
+            }
+            if out.is_empty() {
+                out.push(identity());
+            }
+            Ready(out)
+        }
+
+        fn sum<S>(self) -> S
+        where
+            S: Send + std::iter::Sum<Self::Item> + std::iter::Sum<S>,
+        {
+            let items = self.run_to_vec();
+            let cuts = split_points(items.len());
+            let mut it = items.into_iter();
+            let mut parts: Vec<S> = Vec::new();
+            for w in cuts.windows(2) {
+                parts.push((&mut it).take(w[1] - w[0]).sum());
+            }
+            parts.into_iter().sum()
+        }
+
+        fn min_by<F>(self, f: F) -> Option<Self::Item>
+        where
+            F: Fn(&Self::Item, &Self::Item) -> std::cmp::Ordering + Sync + Send,
+        {
+            self.run_to_vec().into_iter().min_by(|a, b| f(a, b))
+        }
+
+        fn max_by<F>(self, f: F) -> Option<Self::Item>
+        where
+            F: Fn(&Self::Item, &Self::Item) -> std::cmp::Ordering + Sync + Send,
+        {
+            self.run_to_vec().into_iter().max_by(|a, b| f(a, b))
+        }
+
+        fn min_by_key<K: Ord + Send, F>(self, f: F) -> Option<Self::Item>
+        where
+            F: Fn(&Self::Item) -> K + Sync + Send,
+        {
+            self.run_to_vec().into_iter().min_by_key(|a| f(a))
+        }
+
+        fn max_by_key<K: Ord + Send, F>(self, f: F) -> Option<Self::Item>
+        where
+            F: Fn(&Self::Item) -> K + Sync + Send,
+        {
+            self.run_to_vec().into_iter().max_by_key(|a| f(a))
+        }
+
+        fn any<F>(self, f: F) -> bool
+        where
+            F: Fn(Self::Item) -> bool + Sync + Send,
+        {
+            let hit = AtomicBool::new(false);
+            self.drive(|_, x| {
+                if f(x) {
+                    hit.store(true, Ordering::SeqCst);
+                    false
+                } else {
+                    true
+                }
+            });
+            hit.load(Ordering::SeqCst)
+        }
+
+        fn all<F>(self, f: F) -> bool
+        where
+            F: Fn(Self::Item) -> bool + Sync + Send,
+        {
+            !self.any(move |x| !f(x))
+        }
+
+        /// Some matching item: which one is up to the schedule.
+        fn find_any<F>(self, f: F) -> Option<Self::Item>
+        where
+            F: Fn(&Self::Item) -> bool + Sync + Send,
+        {
+            let found: StdMutex<Option<Self::Item>> = StdMutex::new(None);
+            self.drive(|_, x| {
+                if f(&x) {
+                    let mut g = found.lock().unwrap();
+                    if g.is_none() {
+                        *g = Some(x);
+                    }
+                    false
+                } else {
+                    true
+                }
+            });
+            found.into_inner().unwrap()
+        }
+
+        fn find_first<F>(self, f: F) -> Option<Self::Item>
+        where
+            F: Fn(&Self::Item) -> bool + Sync + Send,
+        {
+            self.run_to_vec().into_iter().find(|x| f(x))
+        }
+    }
+
+    /// Sources and adaptors whose items have a fixed position.
+    pub trait IndexedParallelIterator: ParallelIterator {
+        fn len(&self) -> usize;
+
+        fn enumerate(self) -> Enumerate<Self> {
+            Enumerate { base: self }
+        }
+
+        fn zip<Z>(self, other: Z) -> Zip<Self, Z::Iter>
+        where
+            Z: IntoParallelIterator,
+            Z::Iter: IndexedParallelIterator,
+        {
+            Zip { a: self, b: other.into_par_iter() }
+        }
+
+        fn with_min_len(self, _min: usize) -> Self {
+            self
+        }
+
+        fn with_max_len(self, _max: usize) -> Self {
+            self
+        }
+
+        fn collect_into_vec(self, target: &mut Vec<Self::Item>) {
+            *target = self.run_to_vec();
         }
     }
 
@@ -154,20 +500,51 @@ pub mod iter {
 
     impl FromParallelIterator<()> for () {
         fn from_par_iter<I: ParallelIterator<Item = ()>>(iter: I) -> Self {
-            iter.drive(|()| true)
+            iter.drive(|_, ()| true)
         }
     }
 
     impl<T: Send> FromParallelIterator<T> for Vec<T> {
-        /// Completion order (rayon keeps index order for indexed sources; mahf never collects
-        /// into a `Vec`, this exists for the harness' own tests).
+        /// Index order, like rayon for indexed sources (for bridged iterators the index is the
+        /// order in which the items were pulled from the underlying iterator).
         fn from_par_iter<I: ParallelIterator<Item = T>>(iter: I) -> Self {
-            let out = std::sync::Mutex::new(Vec::new());
-            iter.drive(|x| {
-                out.lock().unwrap().push(x);
-                true
-            });
-            out.into_inner().unwrap()
+            iter.run_to_vec()
+        }
+    }
+
+    impl<T: Send> FromParallelIterator<T> for std::collections::VecDeque<T> {
+        fn from_par_iter<I: ParallelIterator<Item = T>>(iter: I) -> Self {
+            iter.run_to_vec().into()
+        }
+    }
+
+    impl<K: Send + Eq + std::hash::Hash, V: Send> FromParallelIterator<(K, V)> for std::collections::HashMap<K, V> {
+        fn from_par_iter<I: ParallelIterator<Item = (K, V)>>(iter: I) -> Self {
+            iter.run_to_vec().into_iter().collect()
+        }
+    }
+
+    impl<K: Send + Ord, V: Send> FromParallelIterator<(K, V)> for std::collections::BTreeMap<K, V> {
+        fn from_par_iter<I: ParallelIterator<Item = (K, V)>>(iter: I) -> Self {
+            iter.run_to_vec().into_iter().collect()
+        }
+    }
+
+    impl<T: Send + Eq + std::hash::Hash> FromParallelIterator<T> for std::collections::HashSet<T> {
+        fn from_par_iter<I: ParallelIterator<Item = T>>(iter: I) -> Self {
+            iter.run_to_vec().into_iter().collect()
+        }
+    }
+
+    impl<T: Send + Ord> FromParallelIterator<T> for std::collections::BTreeSet<T> {
+        fn from_par_iter<I: ParallelIterator<Item = T>>(iter: I) -> Self {
+            iter.run_to_vec().into_iter().collect()
+        }
+    }
+
+    impl FromParallelIterator<String> for String {
+        fn from_par_iter<I: ParallelIterator<Item = String>>(iter: I) -> Self {
+            iter.run_to_vec().concat()
         }
     }
 
@@ -180,11 +557,11 @@ pub mod iter {
         /// Like rayon: stops handing out work after the first `Err` and returns one of the
         /// errors that occurred (here: the first in completion order).
         fn from_par_iter<I: ParallelIterator<Item = Result<T, E>>>(iter: I) -> Self {
-            let first_err: std::sync::Mutex<Option<E>> = std::sync::Mutex::new(None);
-            let oks: std::sync::Mutex<Vec<T>> = std::sync::Mutex::new(Vec::new());
-            iter.drive(|r| match r {
+            let first_err: StdMutex<Option<E>> = StdMutex::new(None);
+            let oks: StdMutex<Vec<(usize, T)>> = StdMutex::new(Vec::new());
+            iter.drive(|i, r| match r {
                 Ok(v) => {
-                    oks.lock().unwrap().push(v);
+                    oks.lock().unwrap().push((i, v));
                     true
                 }
                 Err(e) => {
@@ -197,32 +574,48 @@ pub mod iter {
             });
             match first_err.into_inner().unwrap() {
                 Some(e) => Err(e),
-                None => Ok(C::from_par_iter(VecSource(oks.into_inner().unwrap()).into_par())),
+                None => {
+                    let mut v = oks.into_inner().unwrap();
+                    v.sort_by_key(|(i, _)| *i);
+                    Ok(C::from_par_iter(Ready(v.into_iter().map(|(_, x)| x).collect())))
+                }
             }
         }
     }
 
-    /// Inline, already-computed items (used to finish a `Result<C, E>` collection).
-    struct VecSource<T>(Vec<T>);
-    impl<T: Send> VecSource<T> {
-        fn into_par(self) -> Ready<T> {
-            Ready(self.0)
+    impl<C, T> FromParallelIterator<Option<T>> for Option<C>
+    where
+        C: FromParallelIterator<T>,
+        T: Send,
+    {
+        fn from_par_iter<I: ParallelIterator<Item = Option<T>>>(iter: I) -> Self {
+            let r: Result<C, ()> = Result::from_par_iter(iter.map(|o| o.ok_or(())));
+            r.ok()
         }
     }
-    pub struct Ready<T>(Vec<T>);
+
+    /// Already computed items, delivered inline in order.
+    pub struct Ready<T>(pub(crate) Vec<T>);
     impl<T: Send> ParallelIterator for Ready<T> {
         type Item = T;
         fn drive<C>(self, consumer: C)
         where
-            C: Fn(T) -> bool + Sync,
+            C: Fn(usize, T) -> bool + Sync,
         {
-            for x in self.0 {
-                if !consumer(x) {
+            for (i, x) in self.0.into_iter().enumerate() {
+                if !consumer(i, x) {
                     break;
                 }
             }
         }
     }
+    impl<T: Send> IndexedParallelIterator for Ready<T> {
+        fn len(&self) -> usize {
+            self.0.len()
+        }
+    }
+
+    // ---- adaptors -----------------------------------------------------------------------
 
     pub struct Map<I, F> {
         base: I,
@@ -238,34 +631,179 @@ pub mod iter {
         type Item = R;
         fn drive<C>(self, consumer: C)
         where
-            C: Fn(R) -> bool + Sync,
+            C: Fn(usize, R) -> bool + Sync,
         {
             let f = self.f;
-            self.base.drive(|x| consumer(f(x)))
+            self.base.drive(|i, x| consumer(i, f(x)))
         }
     }
 
-    // ---- slice source -------------------------------------------------------------------
-
-    pub struct IterMut<'a, T: Send> {
-        items: Vec<&'a mut T>,
+    impl<I, R, F> IndexedParallelIterator for Map<I, F>
+    where
+        I: IndexedParallelIterator,
+        R: Send,
+        F: Fn(I::Item) -> R + Sync + Send,
+    {
+        fn len(&self) -> usize {
+            self.base.len()
+        }
     }
 
-    struct QueueSource<T>(Vec<T>);
+    pub struct MapWith<I, T, F> {
+        base: I,
+        init: T,
+        f: F,
+    }
+
+    impl<I, T, R, F> ParallelIterator for MapWith<I, T, F>
+    where
+        I: ParallelIterator,
+        T: Send + Clone + Sync,
+        R: Send,
+        F: Fn(&mut T, I::Item) -> R + Sync + Send,
+    {
+        type Item = R;
+        fn drive<C>(self, consumer: C)
+        where
+            C: Fn(usize, R) -> bool + Sync,
+        {
+            let (f, init) = (self.f, self.init);
+            self.base.drive(|i, x| {
+                let mut t = init.clone();
+                consumer(i, f(&mut t, x))
+            })
+        }
+    }
+
+    pub struct Filter<I, F> {
+        base: I,
+        f: F,
+    }
+
+    impl<I, F> ParallelIterator for Filter<I, F>
+    where
+        I: ParallelIterator,
+        F: Fn(&I::Item) -> bool + Sync + Send,
+    {
+        type Item = I::Item;
+        fn drive<C>(self, consumer: C)
+        where
+            C: Fn(usize, I::Item) -> bool + Sync,
+        {
+            let f = self.f;
+            self.base.drive(|i, x| if f(&x) { consumer(i, x) } else { true })
+        }
+    }
+
+    pub struct FilterMap<I, F> {
+        base: I,
+        f: F,
+    }
+
+    impl<I, R, F> ParallelIterator for FilterMap<I, F>
+    where
+        I: ParallelIterator,
+        R: Send,
+        F: Fn(I::Item) -> Option<R> + Sync + Send,
+    {
+        type Item = R;
+        fn drive<C>(self, consumer: C)
+        where
+            C: Fn(usize, R) -> bool + Sync,
+        {
+            let f = self.f;
+            self.base.drive(|i, x| match f(x) {
+                Some(r) => consumer(i, r),
+                None => true,
+            })
+        }
+    }
+
+    pub struct Enumerate<I> {
+        base: I,
+    }
+
+    impl<I: IndexedParallelIterator> ParallelIterator for Enumerate<I> {
+        type Item = (usize, I::Item);
+        fn drive<C>(self, consumer: C)
+        where
+            C: Fn(usize, (usize, I::Item)) -> bool + Sync,
+        {
+            self.base.drive(|i, x| consumer(i, (i, x)))
+        }
+    }
+
+    impl<I: IndexedParallelIterator> IndexedParallelIterator for Enumerate<I> {
+        fn len(&self) -> usize {
+            self.base.len()
+        }
+    }
+
+    pub struct Zip<A, B> {
+        a: A,
+        b: B,
+    }
+
+    impl<A, B> ParallelIterator for Zip<A, B>
+    where
+        A: IndexedParallelIterator,
+        B: IndexedParallelIterator,
+    {
+        type Item = (A::Item, B::Item);
+        fn drive<C>(self, consumer: C)
+        where
+            C: Fn(usize, (A::Item, B::Item)) -> bool + Sync,
+        {
+            // the second operand is materialised first (on the pool), then paired by index
+            let n = self.a.len().min(self.b.len());
+            let bs: Vec<StdMutex<Option<B::Item>>> = self.b.run_to_vec().into_iter().map(|x| StdMutex::new(Some(x))).collect();
+            self.a.drive(|i, a| {
+                if i >= n {
+                    return true;
+                }
+                match bs[i].lock().unwrap().take() {
+                    Some(b) => consumer(i, (a, b)),
+                    None => true,
+                }
+            })
+        }
+    }
+
+    impl<A, B> IndexedParallelIterator for Zip<A, B>
+    where
+        A: IndexedParallelIterator,
+        B: IndexedParallelIterator,
+    {
+        fn len(&self) -> usize {
+            self.a.len().min(self.b.len())
+        }
+    }
+
+    // ---- indexed sources ----------------------------------------------------------------
+
+    /// An indexed source owning its items (references for `par_iter` / `par_iter_mut`).
+    pub struct VecIter<T: Send> {
+        items: Vec<T>,
+    }
+
+    pub type IterMut<'a, T> = VecIter<&'a mut T>;
+    pub type Iter<'a, T> = VecIter<&'a T>;
+
+    struct QueueSource<T>(Vec<(usize, T)>);
     impl<T: Send> Source for QueueSource<T> {
         type Item = T;
-        fn next_item(&mut self) -> Option<T> {
+        fn next_item(&mut self) -> Option<(usize, T)> {
             self.0.pop()
         }
     }
 
-    impl<'a, T: Send> ParallelIterator for IterMut<'a, T> {
-        type Item = &'a mut T;
+    impl<T: Send> ParallelIterator for VecIter<T> {
+        type Item = T;
         fn drive<C>(self, consumer: C)
         where
-            C: Fn(&'a mut T) -> bool + Sync,
+            C: Fn(usize, T) -> bool + Sync,
         {
-            let mut items = self.items;
+            let mut items: Vec<(usize, T)> = self.items.into_iter().enumerate().collect();
             // hand-out order: reversed so that pop() yields index order, optionally shuffled by
             // the schedule's own PRNG (rayon's splitting makes the start order arbitrary)
             items.reverse();
@@ -280,36 +818,137 @@ pub mod iter {
         }
     }
 
+    impl<T: Send> IndexedParallelIterator for VecIter<T> {
+        fn len(&self) -> usize {
+            self.items.len()
+        }
+    }
+
+    pub trait IntoParallelIterator {
+        type Iter: ParallelIterator<Item = Self::Item>;
+        type Item: Send;
+        fn into_par_iter(self) -> Self::Iter;
+    }
+
+    impl<I: ParallelIterator> IntoParallelIterator for I {
+        type Iter = I;
+        type Item = I::Item;
+        fn into_par_iter(self) -> I {
+            self
+        }
+    }
+
+    impl<T: Send> IntoParallelIterator for Vec<T> {
+        type Iter = VecIter<T>;
+        type Item = T;
+        fn into_par_iter(self) -> VecIter<T> {
+            VecIter { items: self }
+        }
+    }
+
+    impl<'a, T: Sync + 'a> IntoParallelIterator for &'a Vec<T> {
+        type Iter = VecIter<&'a T>;
+        type Item = &'a T;
+        fn into_par_iter(self) -> Self::Iter {
+            VecIter { items: self.iter().collect() }
+        }
+    }
+
+    impl<'a, T: Sync + 'a> IntoParallelIterator for &'a [T] {
+        type Iter = VecIter<&'a T>;
+        type Item = &'a T;
+        fn into_par_iter(self) -> Self::Iter {
+            VecIter { items: self.iter().collect() }
+        }
+    }
+
+    impl<'a, T: Send + 'a> IntoParallelIterator for &'a mut Vec<T> {
+        type Iter = VecIter<&'a mut T>;
+        type Item = &'a mut T;
+        fn into_par_iter(self) -> Self::Iter {
+            VecIter { items: self.iter_mut().collect() }
+        }
+    }
+
+    impl<'a, T: Send + 'a> IntoParallelIterator for &'a mut [T] {
+        type Iter = VecIter<&'a mut T>;
+        type Item = &'a mut T;
+        fn into_par_iter(self) -> Self::Iter {
+            VecIter { items: self.iter_mut().collect() }
+        }
+    }
+
+    impl<T: Send> IntoParallelIterator for Option<T> {
+        type Iter = VecIter<T>;
+        type Item = T;
+        fn into_par_iter(self) -> VecIter<T> {
+            VecIter { items: self.into_iter().collect() }
+        }
+    }
+
+    macro_rules! range_source {
+        ($($t:ty),*) => {$(
+            impl IntoParallelIterator for std::ops::Range<$t> {
+                type Iter = VecIter<$t>;
+                type Item = $t;
+                fn into_par_iter(self) -> VecIter<$t> {
+                    VecIter { items: self.collect() }
+                }
+            }
+            impl IntoParallelIterator for std::ops::RangeInclusive<$t> {
+                type Iter = VecIter<$t>;
+                type Item = $t;
+                fn into_par_iter(self) -> VecIter<$t> {
+                    VecIter { items: self.collect() }
+                }
+            }
+        )*};
+    }
+    range_source!(usize, u64, u32, u16, u8, isize, i64, i32, i16, i8);
+
+    pub trait IntoParallelRefIterator<'data> {
+        type Iter: ParallelIterator<Item = Self::Item>;
+        type Item: Send + 'data;
+        fn par_iter(&'data self) -> Self::Iter;
+    }
+
+    impl<'data, I: 'data + ?Sized> IntoParallelRefIterator<'data> for I
+    where
+        &'data I: IntoParallelIterator,
+    {
+        type Iter = <&'data I as IntoParallelIterator>::Iter;
+        type Item = <&'data I as IntoParallelIterator>::Item;
+        fn par_iter(&'data self) -> Self::Iter {
+            self.into_par_iter()
+        }
+    }
+
     pub trait IntoParallelRefMutIterator<'data> {
         type Iter: ParallelIterator<Item = Self::Item>;
         type Item: Send + 'data;
         fn par_iter_mut(&'data mut self) -> Self::Iter;
     }
 
-    impl<'data, T: Send + 'data> IntoParallelRefMutIterator<'data> for [T] {
-        type Iter = IterMut<'data, T>;
-        type Item = &'data mut T;
+    impl<'data, I: 'data + ?Sized> IntoParallelRefMutIterator<'data> for I
+    where
+        &'data mut I: IntoParallelIterator,
+    {
+        type Iter = <&'data mut I as IntoParallelIterator>::Iter;
+        type Item = <&'data mut I as IntoParallelIterator>::Item;
         fn par_iter_mut(&'data mut self) -> Self::Iter {
-            IterMut {
-                items: self.iter_mut().collect(),
-            }
+            self.into_par_iter()
         }
     }
 
-    impl<'data, T: Send + 'data> IntoParallelRefMutIterator<'data> for Vec<T> {
-        type Iter = IterMut<'data, T>;
-        type Item = &'data mut T;
-        fn par_iter_mut(&'data mut self) -> Self::Iter {
-            IterMut {
-                items: self.iter_mut().collect(),
-            }
-        }
+    pub(crate) fn vec_iter<T: Send>(items: Vec<T>) -> VecIter<T> {
+        VecIter { items }
     }
 
     // ---- bridge source ------------------------------------------------------------------
 
     pub struct IterBridge<I> {
         iter: I,
+        pulled: usize,
     }
 
     impl<I> Source for IterBridge<I>
@@ -318,8 +957,11 @@ pub mod iter {
         I::Item: Send,
     {
         type Item = I::Item;
-        fn next_item(&mut self) -> Option<I::Item> {
-            self.iter.next()
+        fn next_item(&mut self) -> Option<(usize, I::Item)> {
+            let x = self.iter.next()?;
+            let i = self.pulled;
+            self.pulled += 1;
+            Some((i, x))
         }
     }
 
@@ -331,9 +973,19 @@ pub mod iter {
         type Item = I::Item;
         fn drive<C>(self, consumer: C)
         where
-            C: Fn(I::Item) -> bool + Sync,
+            C: Fn(usize, I::Item) -> bool + Sync,
         {
             run_pool(self, consumer)
+        }
+
+        /// rayon gives no order guarantee for bridged iterators: completion order.
+        fn run_to_vec(self) -> Vec<I::Item> {
+            let out: StdMutex<Vec<I::Item>> = StdMutex::new(Vec::new());
+            self.drive(|_, x| {
+                out.lock().unwrap().push(x);
+                true
+            });
+            out.into_inner().unwrap()
         }
     }
 
@@ -347,13 +999,249 @@ pub mod iter {
         T::Item: Send,
     {
         fn par_bridge(self) -> IterBridge<Self> {
-            IterBridge { iter: self }
+            IterBridge { iter: self, pulled: 0 }
         }
+    }
+}
+
+pub mod slice {
+    use crate::iter::{vec_iter, VecIter};
+
+    pub trait ParallelSlice<T: Sync> {
+        fn as_parallel_slice(&self) -> &[T];
+
+        fn par_chunks(&self, chunk_size: usize) -> VecIter<&[T]> {
+            assert!(chunk_size != 0, "chunk_size must not be zero");
+            vec_iter(self.as_parallel_slice().chunks(chunk_size).collect())
+        }
+
+        fn par_windows(&self, window_size: usize) -> VecIter<&[T]> {
+            vec_iter(self.as_parallel_slice().windows(window_size).collect())
+        }
+    }
+
+    impl<T: Sync> ParallelSlice<T> for [T] {
+        fn as_parallel_slice(&self) -> &[T] {
+            self
+        }
+    }
+
+    pub trait ParallelSliceMut<T: Send> {
+        fn as_parallel_slice_mut(&mut self) -> &mut [T];
+
+        fn par_chunks_mut(&mut self, chunk_size: usize) -> VecIter<&mut [T]> {
+            assert!(chunk_size != 0, "chunk_size must not be zero");
+            vec_iter(self.as_parallel_slice_mut().chunks_mut(chunk_size).collect())
+        }
+
+        fn par_sort(&mut self)
+        where
+            T: Ord,
+        {
+            self.as_parallel_slice_mut().sort()
+        }
+
+        fn par_sort_by<F: Fn(&T, &T) -> std::cmp::Ordering + Sync>(&mut self, f: F) {
+            self.as_parallel_slice_mut().sort_by(|a, b| f(a, b))
+        }
+
+        fn par_sort_by_key<K: Ord, F: Fn(&T) -> K + Sync>(&mut self, f: F) {
+            self.as_parallel_slice_mut().sort_by_key(|a| f(a))
+        }
+
+        fn par_sort_unstable(&mut self)
+        where
+            T: Ord,
+        {
+            self.as_parallel_slice_mut().sort_unstable()
+        }
+
+        fn par_sort_unstable_by<F: Fn(&T, &T) -> std::cmp::Ordering + Sync>(&mut self, f: F) {
+            self.as_parallel_slice_mut().sort_unstable_by(|a, b| f(a, b))
+        }
+
+        fn par_sort_unstable_by_key<K: Ord, F: Fn(&T) -> K + Sync>(&mut self, f: F) {
+            self.as_parallel_slice_mut().sort_unstable_by_key(|a| f(a))
+        }
+    }
+
+    impl<T: Send> ParallelSliceMut<T> for [T] {
+        fn as_parallel_slice_mut(&mut self) -> &mut [T] {
+            self
+        }
+    }
+}
+
+// ---- free functions and pools ------------------------------------------------------------
+
+/// Number of (simulated) worker threads.
+pub fn current_num_threads() -> usize {
+    sim::workers().max(1)
+}
+
+/// Index of the current worker: not modelled (callers get `None`, as outside a rayon pool).
+pub fn current_thread_index() -> Option<usize> {
+    None
+}
+
+/// Both closures, possibly concurrently: inside a simulated run `oper_b` runs on a second
+/// simulated thread.
+pub fn join<A, B, RA, RB>(oper_a: A, oper_b: B) -> (RA, RB)
+where
+    A: FnOnce() -> RA + Send,
+    B: FnOnce() -> RB + Send,
+    RA: Send,
+    RB: Send,
+{
+    if sim::workers() <= 1 {
+        let a = oper_a();
+        preempt();
+        let b = oper_b();
+        return (a, b);
+    }
+    let mut rb = None;
+    let mut ra = None;
+    shuttle::thread::scope(|s| {
+        s.spawn(|| {
+            preempt();
+            rb = Some(oper_b());
+        });
+        preempt();
+        ra = Some(oper_a());
+    });
+    (ra.expect("join: first closure"), rb.expect("join: second closure"))
+}
+
+type Task<'scope> = Box<dyn FnOnce(&Scope<'scope>) + Send + 'scope>;
+
+/// `rayon::scope`: spawned tasks run on the simulated pool in rounds (tasks spawned by tasks run
+/// in the next round); all have finished when `scope` returns.
+pub struct Scope<'scope> {
+    tasks: std::sync::Mutex<Vec<Task<'scope>>>,
+}
+
+impl<'scope> Scope<'scope> {
+    pub fn spawn<BODY>(&self, body: BODY)
+    where
+        BODY: FnOnce(&Scope<'scope>) + Send + 'scope,
+    {
+        self.tasks.lock().unwrap().push(Box::new(body));
+    }
+}
+
+pub fn scope<'scope, OP, R>(op: OP) -> R
+where
+    OP: FnOnce(&Scope<'scope>) -> R + Send,
+    R: Send,
+{
+    use iter::ParallelIterator;
+    let sc = Scope { tasks: std::sync::Mutex::new(Vec::new()) };
+    let r = op(&sc);
+    loop {
+        let round: Vec<Task<'scope>> = std::mem::take(&mut *sc.tasks.lock().unwrap());
+        if round.is_empty() {
+            break;
+        }
+        let cells: Vec<std::sync::Mutex<Option<Task<'scope>>>> = round.into_iter().map(|t| std::sync::Mutex::new(Some(t))).collect();
+        let idx: Vec<usize> = (0..cells.len()).collect();
+        iter::vec_iter(idx).for_each(|i| {
+            if let Some(t) = cells[i].lock().unwrap().take() {
+                t(&sc);
+            }
+        });
+    }
+    r
+}
+
+#[derive(Debug)]
+pub struct ThreadPoolBuildError;
+
+impl std::fmt::Display for ThreadPoolBuildError {
+    fn fmt(&self, f: &mut std::fmt::Formatter<'_>) -> std::fmt::Result {
+        write!(f, "thread pool build error")
+    }
+}
+
+impl std::error::Error for ThreadPoolBuildError {}
+
+#[derive(Default)]
+pub struct ThreadPoolBuilder {
+    threads: usize,
+}
+
+impl ThreadPoolBuilder {
+    pub fn new() -> Self {
+        Self::default()
+    }
+    pub fn num_threads(mut self, n: usize) -> Self {
+        self.threads = n;
+        self
+    }
+    pub fn thread_name<F: FnMut(usize) -> String + 'static>(self, _f: F) -> Self {
+        self
+    }
+    pub fn stack_size(self, _s: usize) -> Self {
+        self
+    }
+    pub fn build(self) -> Result<ThreadPool, ThreadPoolBuildError> {
+        Ok(ThreadPool { threads: self.threads })
+    }
+    /// The simulated pool's size is decided by the simulator.
+    pub fn build_global(self) -> Result<(), ThreadPoolBuildError> {
+        Ok(())
+    }
+}
+
+/// A pool of its own size: inside a simulated run parallel calls made under `install` use that
+/// many simulated workers.
+pub struct ThreadPool {
+    threads: usize,
+}
+
+impl ThreadPool {
+    pub fn install<OP, R>(&self, op: OP) -> R
+    where
+        OP: FnOnce() -> R + Send,
+        R: Send,
+    {
+        let before = sim::workers();
+        if before > 0 && self.threads > 0 {
+            sim::configure(self.threads, true);
+        }
+        let r = op();
+        if before > 0 {
+            sim::configure(before, true);
+        }
+        r
+    }
+    pub fn current_num_threads(&self) -> usize {
+        if self.threads > 0 {
+            self.threads
+        } else {
+            current_num_threads()
+        }
+    }
+    pub fn join<A, B, RA, RB>(&self, a: A, b: B) -> (RA, RB)
+    where
+        A: FnOnce() -> RA + Send,
+        B: FnOnce() -> RB + Send,
+        RA: Send,
+        RB: Send,
+    {
+        self.install(|| join(a, b))
+    }
+    pub fn scope<'scope, OP, R>(&self, op: OP) -> R
+    where
+        OP: FnOnce(&Scope<'scope>) -> R + Send,
+        R: Send,
+    {
+        self.install(|| scope(op))
     }
 }
 
 pub mod prelude {
     pub use crate::iter::{
-        FromParallelIterator, IntoParallelRefMutIterator, ParallelBridge, ParallelIterator,
+        FromParallelIterator, IndexedParallelIterator, IntoParallelIterator, IntoParallelRefIterator, IntoParallelRefMutIterator, ParallelBridge, ParallelIterator,
     };
+    pub use crate::slice::{ParallelSlice, ParallelSliceMut};
 }
